@@ -1,6 +1,7 @@
-// C02 driver, part 6: shapes that trigger the known findings (findings/C02.json).  The generator avoids them
-// most of the time (so that they do not drown everything else) and a failing, shrunk case that still
-// contains one of them gets that finding's signature.
+// C02 driver, part 6: shapes that trigger the known findings (findings/C02.json), one per ROOT CAUSE.  The
+// generator avoids them most of the time (so that they do not drown everything else) and a failing, shrunk case
+// that still contains one of them gets that finding's signature, whatever data / aliases / surrounding clauses
+// it was reached through.
 package main
 
 import (
@@ -15,19 +16,98 @@ func peel(q *Query) *Query {
 	return q
 }
 
+// isConstant: no column references and no subqueries
+func isConstant(e *Expr) bool {
+	if e == nil {
+		return true
+	}
+	if e.Op == "col" || e.Q != nil {
+		return false
+	}
+	for _, l := range e.L {
+		if !isConstant(l) {
+			return false
+		}
+	}
+	return isConstant(e.A) && isConstant(e.B)
+}
+
+// staticTruth: three-valued partial evaluation with unknown columns: 1 TRUE, 0 FALSE, -1 NULL, 2 unknown
+func staticTruth(e *Expr) int {
+	if e == nil {
+		return 2
+	}
+	if isConstant(e) {
+		v, err := (&interp{}).expr(e, nil)
+		if err != nil {
+			return 2
+		}
+		t, err := truth(v)
+		if err != nil {
+			return 2
+		}
+		return t
+	}
+	isNullLit := func(x *Expr) bool { return x != nil && x.Op == "const" && x.V.K == "null" }
+	switch e.Op {
+	case "cmp", "arith":
+		if isNullLit(e.A) || isNullLit(e.B) {
+			return -1
+		}
+	case "not":
+		switch staticTruth(e.A) {
+		case 1:
+			return 0
+		case 0:
+			return 1
+		case -1:
+			return -1
+		}
+	case "and":
+		a, b := staticTruth(e.A), staticTruth(e.B)
+		switch {
+		case a == 0 || b == 0:
+			return 0
+		case a == 1 && b == 1:
+			return 1
+		case (a == -1 || a == 1) && (b == -1 || b == 1):
+			return -1
+		}
+	case "or":
+		a, b := staticTruth(e.A), staticTruth(e.B)
+		switch {
+		case a == 1 || b == 1:
+			return 1
+		case a == 0 && b == 0:
+			return 0
+		case (a == -1 || a == 0) && (b == -1 || b == 0):
+			return -1
+		}
+	}
+	return 2
+}
+
+// constFalseish: a condition that is statically not TRUE (the engine folds it and prunes the join)
 func constFalseish(e *Expr) bool {
 	if e == nil {
 		return false
 	}
+	if t := staticTruth(e); t == 0 || t == -1 {
+		return true
+	}
 	switch e.Op {
-	case "const":
-		return e.V.K == "null" || (e.V.K == "int" && e.V.I == 0) || (e.V.K == "dec" && e.V.I == 0)
 	case "and":
 		return constFalseish(e.A) || constFalseish(e.B)
 	case "or":
 		return constFalseish(e.A) && constFalseish(e.B)
 	}
 	return false
+}
+
+// emptyDerived: a derived table that is statically empty (WHERE folds to not-TRUE)
+func emptyDerived(q *Query) bool {
+	b := peel(q)
+	return b != nil && b.K == "select" && constFalseish(b.Wh)
 }
 
 func hasFalseJoin(q *Query, outerOnly bool) bool {
@@ -38,7 +118,28 @@ func hasFalseJoin(q *Query, outerOnly bool) bool {
 	if outerOnly && q.JK != "left" && q.JK != "right" {
 		here = false
 	}
+	if (q.JK == "left" && emptyDerived(q.R)) || (q.JK == "right" && emptyDerived(q.L)) {
+		here = true
+	}
 	return here || hasFalseJoin(q.L, outerOnly) || hasFalseJoin(q.R, outerOnly)
+}
+
+func hasOuterJoin(q *Query) bool {
+	if q == nil || q.K != "join" {
+		return false
+	}
+	return q.JK == "left" || q.JK == "right" || hasOuterJoin(q.L) || hasOuterJoin(q.R)
+}
+
+// falseJoinOverOuterJoin: an inner join with a statically false ON above an outer join
+func falseJoinOverOuterJoin(q *Query) bool {
+	if q == nil || q.K != "join" {
+		return false
+	}
+	if q.JK == "inner" && constFalseish(q.On) && (hasOuterJoin(q.L) || hasOuterJoin(q.R)) {
+		return true
+	}
+	return falseJoinOverOuterJoin(q.L) || falseJoinOverOuterJoin(q.R)
 }
 
 func hasAnti(e *Expr) bool {
@@ -64,20 +165,145 @@ func hasSemi(e *Expr) bool {
 	return hasSemi(e.A) || hasSemi(e.B)
 }
 
+// hoistable: the filter contains an uncorrelated subquery predicate with no column operand (EXISTS (closed),
+// const IN (closed)); the engine hoists it out of the enclosing subquery
+func hoistable(e *Expr) bool {
+	if e == nil {
+		return false
+	}
+	switch e.Op {
+	case "exists":
+		return true
+	case "inq":
+		return isConstant(e.A)
+	case "and", "or", "not":
+		return hoistable(e.A) || hoistable(e.B)
+	}
+	return false
+}
+
+// resolveLeaf: the FROM leaf (base table or derived query) and its column that position pos of the row of src denotes
+func resolveLeaf(src *Query, pos int, tables []Table) (*Query, int) {
+	if src == nil {
+		return nil, 0
+	}
+	if src.K == "join" {
+		wl := width(src.L, tables)
+		if pos < wl {
+			return resolveLeaf(src.L, pos, tables)
+		}
+		return resolveLeaf(src.R, pos-wl, tables)
+	}
+	return src, pos
+}
+
+func indexedCol(leaf *Query, i int, tables []Table) bool {
+	if leaf == nil || leaf.K != "table" || leaf.T >= len(tables) {
+		return false
+	}
+	t := tables[leaf.T]
+	if t.PK == i {
+		return true
+	}
+	for _, j := range t.Idx {
+		if j == i {
+			return true
+		}
+	}
+	return false
+}
+
+// equiJoinOnIndexes: some join of the tree has ON a = b with both columns indexed base-table columns
+func equiJoinOnIndexes(root, q *Query, tables []Table) bool {
+	if q == nil || q.K != "join" {
+		return false
+	}
+	var find func(e *Expr) bool
+	find = func(e *Expr) bool {
+		if e == nil {
+			return false
+		}
+		if e.Op == "cmp" && e.O == "=" && e.A.Op == "col" && e.B.Op == "col" && e.A.D == 0 && e.B.D == 0 {
+			la, ia := resolveLeaf(q, e.A.I, tables)
+			lb, ib := resolveLeaf(q, e.B.I, tables)
+			if indexedCol(la, ia, tables) && indexedCol(lb, ib, tables) {
+				return true
+			}
+		}
+		if e.Op == "and" {
+			return find(e.A) || find(e.B)
+		}
+		return false
+	}
+	return (q.JK != "cross" && find(q.On)) || equiJoinOnIndexes(root, q.L, tables) || equiJoinOnIndexes(root, q.R, tables)
+}
+
+// nullTypedSetopLeaf: a FROM leaf is a set operation with a column that is NULL-typed in exactly one branch
+func nullTypedSetopLeaf(src *Query, tables []Table) bool {
+	if src == nil {
+		return false
+	}
+	if src.K == "join" {
+		return nullTypedSetopLeaf(src.L, tables) || nullTypedSetopLeaf(src.R, tables)
+	}
+	p := peel(src)
+	if p == nil || p.K != "setop" {
+		return false
+	}
+	c := &checker{tables: tables}
+	lt, err1 := c.query(p.L, nil)
+	rt, err2 := c.query(p.R, nil)
+	if err1 != nil || err2 != nil || len(lt) != len(rt) {
+		return false
+	}
+	for i := range lt {
+		if (lt[i] == tNull) != (rt[i] == tNull) {
+			return true
+		}
+	}
+	return false
+}
+
+func setopLeafWidth(src *Query, tables []Table) int {
+	if src == nil {
+		return 0
+	}
+	if src.K == "join" {
+		a, b := setopLeafWidth(src.L, tables), setopLeafWidth(src.R, tables)
+		if a > b {
+			return a
+		}
+		return b
+	}
+	if p := peel(src); p != nil && p.K == "setop" {
+		return width(src, tables)
+	}
+	return 0
+}
+
 var triggerOrder = []string{
 	"in-subquery-projecting-null-literal",
+	"int-in-decimal-subquery",
+	"in-subquery-projecting-outer-column",
+	"null-in-empty-correlated-subquery",
 	"exists-over-global-aggregate",
 	"in-subquery-over-global-aggregate",
 	"exists-over-limit",
 	"exists-over-outer-join-with-false-condition",
+	"in-subquery-over-outer-join-with-false-condition",
+	"correlated-subquery-with-hoistable-uncorrelated-filter",
+	"null-literal-set-operation-column-in-scalar-subquery",
+	"decimal-literal-compared-with-product",
 	"distinct-order-by-position",
 	"having-references-group-by-expression",
 	"having-aggregate-over-join",
 	"aggregates-differing-only-in-letter-case",
 	"anti-join-over-empty-join",
 	"semi-and-anti-join-in-one-filter",
+	"false-inner-join-over-outer-join",
 	"set-operation-order-by-limit-offset",
 	"set-operation-null-literal-column-order-by",
+	"order-by-desc-over-join-of-indexed-columns",
 	"outer-column-named-like-inner-indexed-column",
 	"indexed-int-column-compared-with-decimal",
 }
@@ -86,17 +312,30 @@ var triggerOrder = []string{
 func triggers(cs *Case) []string {
 	found := map[string]bool{}
 	s := collect(cs)
+	for _, p := range s.qs {
+		if q := *p; q.K == "join" && q.JK != "cross" && decLiteralVsProduct(q.On) {
+			found["decimal-literal-compared-with-product"] = true
+		}
+	}
 	for _, p := range s.es {
 		e := *p
-		if e.Op == "inq" && projectsNullLiteral(e.Q, 0) {
+		if e.Op == "inq" && projectsNullLiteral(e.Q, 0, cs.Tables) {
 			found["in-subquery-projecting-null-literal"] = true
 		}
-		if e.Op == "exists" || e.Op == "inq" {
+		if e.Op == "inq" {
+			if b := peel(e.Q); b != nil && (b.K == "select" || b.K == "group") && len(b.Proj) > 0 && projOuterOnly(b) {
+				found["in-subquery-projecting-outer-column"] = true
+			}
+			if e.A.Op == "const" && e.A.V.K == "null" && escapesQ(e.Q, 0) {
+				found["null-in-empty-correlated-subquery"] = true
+			}
+		}
+		if e.Op == "exists" || e.Op == "inq" || e.Op == "scalar" {
 			b := peel(e.Q)
 			if b != nil && b.K == "group" && len(b.Keys) == 0 {
 				if e.Op == "exists" {
 					found["exists-over-global-aggregate"] = true
-				} else {
+				} else if e.Op == "inq" {
 					found["in-subquery-over-global-aggregate"] = true
 				}
 			}
@@ -105,6 +344,12 @@ func triggers(cs *Case) []string {
 			}
 			if e.Op == "exists" && b != nil && (b.K == "select" || b.K == "group") && hasFalseJoin(b.Src, true) {
 				found["exists-over-outer-join-with-false-condition"] = true
+			}
+			if e.Op == "inq" && b != nil && (b.K == "select" || b.K == "group") && hasFalseJoin(b.Src, true) {
+				found["in-subquery-over-outer-join-with-false-condition"] = true
+			}
+			if b != nil && (b.K == "select" || b.K == "group") && escapesQ(e.Q, 0) && hoistable(b.Wh) {
+				found["correlated-subquery-with-hoistable-uncorrelated-filter"] = true
 			}
 		}
 	}
@@ -120,10 +365,17 @@ func triggers(cs *Case) []string {
 			}
 			if len(q.OKeys) > 0 && q.Q.K == "setop" {
 				for _, k := range q.OKeys {
-					if projectsNullLiteral(q.Q, k.I) {
+					if projectsNullLiteral(q.Q, k.I, cs.Tables) {
 						found["set-operation-null-literal-column-order-by"] = true
 					}
 				}
+			}
+			desc := false
+			for _, k := range q.OKeys {
+				desc = desc || k.Desc
+			}
+			if desc && (q.Q.K == "select" || q.Q.K == "group") && equiJoinOnIndexes(q.Q.Src, q.Q.Src, cs.Tables) {
+				found["order-by-desc-over-join-of-indexed-columns"] = true
 			}
 		case "group":
 			for i, k := range q.Keys {
@@ -144,11 +396,28 @@ func triggers(cs *Case) []string {
 				}
 			}
 		}
-		if (q.K == "select" || q.K == "group") && hasFalseJoin(q.Src, false) && hasAnti(q.Wh) {
-			found["anti-join-over-empty-join"] = true
-		}
-		if (q.K == "select" || q.K == "group") && hasSemi(q.Wh) && hasAnti(q.Wh) {
-			found["semi-and-anti-join-in-one-filter"] = true
+		if q.K == "select" || q.K == "group" {
+			if hasFalseJoin(q.Src, false) && (hasAnti(q.Wh) || hasSemi(q.Wh)) {
+				found["anti-join-over-empty-join"] = true
+			}
+			if hasSemi(q.Wh) && hasAnti(q.Wh) {
+				found["semi-and-anti-join-in-one-filter"] = true
+			}
+			if falseJoinOverOuterJoin(q.Src) {
+				found["false-inner-join-over-outer-join"] = true
+			}
+			// a scalar subquery, one of several select items, over a set-operation derived table in which a NULL-literal
+			// column of one branch meets a typed column of the other (the engine adds a converting projection)
+			if len(q.Proj) >= 2 {
+				for _, pe := range q.Proj {
+					if pe.Op != "scalar" {
+						continue
+					}
+					if b := peel(pe.Q); b != nil && (b.K == "select" || b.K == "group") && nullTypedSetopLeaf(b.Src, cs.Tables) {
+						found["null-literal-set-operation-column-in-scalar-subquery"] = true
+					}
+				}
+			}
 		}
 	}
 	c := &checker{tables: cs.Tables}
@@ -170,6 +439,9 @@ func triggers(cs *Case) []string {
 	if c.mixedIntDec && indexed {
 		found["indexed-int-column-compared-with-decimal"] = true
 	}
+	if c.intInDecSubquery {
+		found["int-in-decimal-subquery"] = true
+	}
 	curTables = cs.Tables
 	pr := &printer{flags: map[string]bool{}}
 	pr.queryT(cs.Q, nil, cs.Tables)
@@ -185,17 +457,106 @@ func triggers(cs *Case) []string {
 	return out
 }
 
-// projectsNullLiteral: does (a branch of) the query project the NULL literal at position pos?
-func projectsNullLiteral(q *Query, pos int) bool {
+// projectsNullLiteral: does (a branch of) the query project a statically NULL expression at position pos?
+func projectsNullLiteral(q *Query, pos int, tables []Table) bool {
 	q = peel(q)
 	if q == nil {
 		return false
 	}
 	switch q.K {
 	case "setop":
-		return projectsNullLiteral(q.L, pos) || projectsNullLiteral(q.R, pos)
+		return projectsNullLiteral(q.L, pos, tables) || projectsNullLiteral(q.R, pos, tables)
 	case "select", "group":
-		return len(q.Proj) > pos && q.Proj[pos].Op == "const" && q.Proj[pos].V.K == "null"
+		return len(q.Proj) > pos && staticNull(q.Proj[pos], q, tables)
+	}
+	return false
+}
+
+// staticNull: the NULL literal, MIN/MAX/SUM/AVG of it, a scalar subquery projecting it, or a column of a derived
+// table that projects it
+func staticNull(e *Expr, blk *Query, tables []Table) bool {
+	switch e.Op {
+	case "const":
+		return e.V.K == "null"
+	case "col":
+		if blk == nil || e.D != 0 {
+			return false
+		}
+		if blk.K == "group" {
+			if e.I < len(blk.Keys) {
+				return staticNull(blk.Keys[e.I], &Query{K: "select", Src: blk.Src}, tables)
+			}
+			if e.I-len(blk.Keys) < len(blk.Aggs) {
+				a := blk.Aggs[e.I-len(blk.Keys)]
+				return a.F != "count" && a.F != "countd" && a.F != "count*" && staticNull(a.E, &Query{K: "select", Src: blk.Src}, tables)
+			}
+			return false
+		}
+		if leaf, i := resolveLeaf(blk.Src, e.I, tables); leaf != nil && leaf.K != "table" {
+			return projectsNullLiteral(leaf, i, tables)
+		}
+	case "scalar":
+		return projectsNullLiteral(e.Q, 0, tables)
+	}
+	return false
+}
+
+// projOuterOnly: the first select expression of the block depends on outer columns only (directly, or as the
+// argument of the aggregate it refers to)
+func projOuterOnly(b *Query) bool {
+	p := b.Proj[0]
+	if b.K == "group" {
+		if p.Op == "col" && p.D == 0 {
+			if p.I < len(b.Keys) {
+				p = b.Keys[p.I]
+			} else if p.I-len(b.Keys) < len(b.Aggs) {
+				p = b.Aggs[p.I-len(b.Keys)].E
+			}
+		} else if innerRef(p) {
+			return false
+		}
+	}
+	return escapesE(p, 1) && !innerRef(p)
+}
+
+// decLiteralVsProduct: a = b where one side is a DECIMAL literal and the other a product
+func decLiteralVsProduct(e *Expr) bool {
+	if e == nil {
+		return false
+	}
+	if e.Op == "cmp" {
+		lit := func(x *Expr) bool { return x.Op == "const" && x.V.K == "dec" }
+		prod := func(x *Expr) bool { return x.Op == "arith" && x.O == "*" && !isConstant(x) }
+		if (lit(e.A) && prod(e.B)) || (lit(e.B) && prod(e.A)) {
+			return true
+		}
+	}
+	if decLiteralVsProduct(e.A) || decLiteralVsProduct(e.B) {
+		return true
+	}
+	for _, l := range e.L {
+		if decLiteralVsProduct(l) {
+			return true
+		}
+	}
+	return false
+}
+
+// innerRef: does e (outside subqueries) reference a column of its own block (depth 0)?
+func innerRef(e *Expr) bool {
+	if e == nil {
+		return false
+	}
+	if e.Op == "col" {
+		return e.D == 0
+	}
+	if innerRef(e.A) || innerRef(e.B) {
+		return true
+	}
+	for _, l := range e.L {
+		if innerRef(l) {
+			return true
+		}
 	}
 	return false
 }
